@@ -37,6 +37,15 @@ def parseLine (d : DState) (line : String) : Except String DState :=
           pure ({ sender, funds, msg := m } : Call)) rest with
       | some c => .ok { d with pend := { p with call := some (if tag == "CX" then .exec c else if tag == "CT" then .attempt c else .probe c) } }
       | none => bad
+    | "CU" =>
+      match run (do
+          let sender ← str
+          let funds ← list coin
+          let name ← str
+          let _ ← str
+          pure (CallKind.other sender funds name)) rest with
+      | some c => .ok { d with pend := { p with call := some c } }
+      | none => bad
     | "CM" => match run migMsg rest with
       | some m => .ok { d with pend := { p with call := some (.mig m) } }
       | none => bad
